@@ -411,7 +411,8 @@ class SCase(Case):
         def j(xs):
             xs = list(xs)
             return ",".join(xs) if xs else "-"
-        ts = "/".join("%s:%s:%s" % (j(vlib.hexs(h) for h in hd), vlib.hexs(b), p) for hd, b, p in self.transfers)
+        ts = "/".join("%s:%s:%s%s" % (j(vlib.hexs(h) for h in t[0]), vlib.hexs(t[1]), t[2], ":r" if len(t) > 3 and t[3] else "")
+                      for t in self.transfers)
         return "S %d %d %s %s -" % (self.ht, self.doff, j("%d.%d.%d" % c for c in self.chunks), ts)
 
 
@@ -467,6 +468,12 @@ def gen_sessions(tier, rng):
             c = SCase("sess:%d:%s:cut=%d:%s:%s" % (ti, mode, T, p1, p2), chunks, [(h1, b1[:T], p1), (h2, b2, p2)])
             c.expect = expect_for(c)
             cases.append(c)
+            if T % 3 == 2 and all(ch[1] != 2 for ch in chunks):
+                # the client re-checks the file before retrying (zck_find_valid_chunks + zck_reset_failed_chunks): the
+                # descriptor is left at the start of the data section
+                c = SCase("sess-rescan:%d:%s:cut=%d:%s" % (ti, mode, T, p2), chunks, [(h1, b1[:T], p1), (h2, b2, p2, True)])
+                c.expect = expect_for(c)
+                cases.append(c)
             # two broken transfers in a row, then the complete one
             if T % (4 if not thorough else 1) == 1 and len(b2) > 2:
                 for T2 in sorted({1, len(b2) // 2, len(b2) - 1, rng.randrange(1, len(b2))}):
@@ -592,6 +599,15 @@ def check_case(res, c, mline, iline, aline, pfx="c05", compare_model=True):
             res.violation("oracle", pfx + ":failed-not-zeroed:" + c.name, "chunk %d is marked failed but is not zero-filled (%s) in %s"
                           % (i, item, c.name), info)
             bad = True
+    # (iv) at every step of a session: after each transfer a chunk flagged valid holds its bytes
+    mi = re.search(r"I=(\S*)", p["extra"])
+    if mi:
+        for step, snap in enumerate(mi.group(1).split(";")):
+            for i, item in enumerate(snap.split(",") if snap else []):
+                if item[:-1] == "1" and item[-1] not in ("T", "E"):
+                    res.violation("oracle", pfx + ":valid-wrong:" + c.name, "after transfer %d of %s chunk %d is flagged valid but does "
+                                  "not hold its bytes (%s)" % (step + 1, c.name, i, item), info)
+                    bad = True
     # (ii) placement
     if c.expect is not None and not bad:
         if p["verdict"] != c.expect["verdict"] or p["V"] != c.expect["V"]:
@@ -650,8 +666,8 @@ def raw_scase(line):
     chunks = [tuple(int(v) for v in c.split(".")) for c in sp(t[3])]
     trs = []
     for tr in t[4].split("/"):
-        hd, body, parts = tr.split(":")
-        trs.append(([vlib.unhex(h) for h in sp(hd)], vlib.unhex(body), parts))
+        f = tr.split(":")
+        trs.append(([vlib.unhex(h) for h in sp(f[0])], vlib.unhex(f[1]), f[2], len(f) > 3 and f[3] == "r"))
     return SCase("replay", chunks, trs, doff=int(t[2]), ht=int(t[1]))
 
 
